@@ -130,6 +130,10 @@ def check_run(res, name, N, p0, maxSub, seed, reqs, meta, quad=None, config=None
     orc = '|'.join(';'.join(enc_list([rank[v] for v in ch]) for ch in lv) for lv in levels_chains) or '-'
     reqs.append(f'subset {nc} {maxSub} {enc_list([rank[v] for v in r["g0"]])} {orc}')
     meta.append((case, [[rank.get(float(v)) for v in lsf[k]] for k in range(m)], nc, rank))
+    # the returned pf against the model's product of stored level probabilities (p0 as the exact binary fraction of the float)
+    pa, pb = Fraction(p0).as_integer_ratio()
+    reqs.append(f'subsetpf {pa} {pb} {N} {nc} {maxSub} {enc_list([rank[v] for v in r["g0"]])} {orc}')
+    meta.append((case, ('pf', r['pf']), nc, rank))
     return r
 
 
@@ -158,6 +162,16 @@ def explore(res, rng, n):
             res.samples.append(meta[-1][0])
     for (case, levels, nc, rank), a in zip(meta, core.driver_batch(reqs)):
         res.traces += 1
+        if isinstance(levels, tuple) and levels[0] == 'pf':
+            try:
+                num, den = (int(x) for x in a.split(' '))
+                ok = math.isclose(levels[1], float(Fraction(num, den)), rel_tol=1e-12, abs_tol=1e-300)
+            except Exception:  # noqa
+                ok = False
+            if not ok:
+                res.disagreements.append({'what': 'returned pf differs from the product of level probabilities of the bookkeeping model', 'input': case,
+                                          'impl': levels[1], 'model': a[:100]})
+            continue
         got = [[int(x) for x in lv.split(':')[0].split(',')] for lv in a.split('|')] if a not in ('', 'bad-request') else None
         if got is None or got[:len(levels)] != levels:
             res.disagreements.append({'what': 'level contents differ from the bookkeeping model (sort / seeds / chain layout)', 'input': case,
